@@ -643,6 +643,6 @@ func TestC17(t *testing.T) {
 		Assumptions: []string{"snapshots are not taken concurrently with a restore (recursive read-locking under a pending writer is a liveness question this check does not decide)",
 			"schedules are sampled by the Go scheduler, not enumerated"},
 		Gen: genC17, Run: runC17,
-		QuickChecks: 120, ThoroughFactor: 12,
+		QuickChecks: 300, ThoroughFactor: 5,
 	})
 }
